@@ -12,8 +12,14 @@ the reverse of forward.  Spec column: the property (retained versions, option fi
 -/
 
 structure C10State where
-  keys : List (Nat × List HVer) := []      -- key id ↦ versions newest first; keys ascending
+  keys : List (Nat × List HVer) := []      -- key id ↦ versions newest first (commit order); keys ascending
   seq : Nat := 0
+
+/-- the versions of a key by timestamp, newest first (commit order breaks ties): the order of the version index -/
+def insTs (v : HVer) : List HVer → List HVer
+  | [] => [v]
+  | x :: xs => if v.ts > x.ts || (v.ts == x.ts && v.seq > x.seq) then v :: x :: xs else x :: insTs v xs
+def sortTs (l : List HVer) : List HVer := l.foldr insTs []
 
 def c10Add (st : C10State) (k : Nat) (kind : VKind) (ts val : Nat) : C10State :=
   let seq := st.seq + 1
@@ -51,7 +57,7 @@ def c10Step (st : C10State) (ws : List String) : C10State × String × String :=
     | some k, some t =>
       let vs := ((st.keys.find? (·.1 == k)).map (·.2)).getD []
       let sh (o : Option Nat) : String := match o with | some v => s!"v{v}" | none => "none"
-      (st, sh (getAt st.seq t vs), sh (specGetAt st.seq t vs))
+      (st, sh (getAt st.seq t vs), sh (specGetAt st.seq t (sortTs vs)))
     | _, _ => (st, "bad-op", "bad-op")
   | ["hist", lo, hi, tombs, ra, rb, limit, dir] =>
     match lo.toNat?, hi.toNat?, optNat10 ra, optNat10 rb, optNat10 limit with
@@ -62,9 +68,11 @@ def c10Step (st : C10State) (ws : List String) : C10State × String × String :=
       -- backward: the literal model of `collect_one_user_key_backward`; its specification is the unlimited
       -- forward listing read from the other end, then cut at the limit
       let m := if dir == "bwd" then histBwd o st.seq ks else histFwd o st.seq ks
-      let sp := if dir == "bwd" then applyLimit o (specHistory { o with limit := none } st.seq ks).reverse
-                else specHistory o st.seq ks
-      let tag := if m == sp then "" else "\tmodel-departs-from-spec"
+      -- the property orders a key's versions by timestamp (with back-filled timestamps that is not the commit order)
+      let kst := ks.map (fun kv => (kv.1, sortTs kv.2))
+      let sp := if dir == "bwd" then applyLimit o (specHistory { o with limit := none } st.seq kst).reverse
+                else specHistory o st.seq kst
+      let tag := if m == sp then "" else "\thistory-commit-order-until-flush"
       (st, showHL m, showHL sp ++ tag)
     | _, _, _, _, _ => (st, "bad-op", "bad-op")
   | ["flush"] => (st, "ok", "ok")
